@@ -194,12 +194,22 @@ func (s *Solver) proc(kind string) (*solverProc, error) {
 	if p, ok := s.procs[kind]; ok {
 		return p, nil
 	}
-	p, err := startSolver(kind, s.capMs)
+	p, err := startSolver(strings.TrimSuffix(kind, "#diff"), s.capFor(kind))
 	if err != nil {
 		return nil, err
 	}
 	s.procs[kind] = p
 	return p, nil
+}
+
+// capFor: the second opinion of the thorough tier ("<solver>#diff") never gets more
+// than 20 s per query - cvc5 needs minutes on some queries z3 answers in seconds, and
+// an unknown second opinion leaves the first answer standing.
+func (s *Solver) capFor(kind string) int {
+	if strings.HasSuffix(kind, "#diff") && s.capMs > 20000 {
+		return 20000
+	}
+	return s.capMs
 }
 
 func parseBVValue(tok string) (uint64, bool) {
@@ -383,7 +393,7 @@ func (s *Solver) runOnce(kind string, script string, vars []*Term, wantModel boo
 	var out res
 	select {
 	case out = <-ch:
-	case <-time.After(time.Duration(s.capMs)*time.Millisecond + 15*time.Second):
+	case <-time.After(time.Duration(s.capFor(kind))*time.Millisecond + 15*time.Second):
 		p.kill()
 		delete(s.procs, kind)
 		out = res{Unknown, nil, false}
@@ -453,7 +463,7 @@ func (s *Solver) Check(asserts []*Term, wantModel bool) (SatResult, Model) {
 		// Thorough tier: every "unsat" (an assertion that holds, a branch that is
 		// pruned) is re-decided by the second solver. A "sat" answer carries a model
 		// that is validated by evaluation below, so it needs no second opinion.
-		r2, _, _ := s.runOn(second, script, vars, false)
+		r2, _, _ := s.runOn(second+"#diff", script, vars, false)
 		if r2 != Unknown && r2 != r {
 			if s.log != nil {
 				fmt.Fprintf(s.log, "SOLVER-DISAGREEMENT %s=%v %s=%v\n", first, r, second, r2)
